@@ -542,6 +542,18 @@ theorem C16_chain_rewrite_safe [DecidableEq L] (m : Mode) (res : L → LAst T) (
 example : safeWith .orDefault false
     (lenientFold ((chainFrom none (.leaf 1 : Ast Nat) [(.and, .leaf 2), (.or, .leaf 3)]).map rawOf)).1 = true := rfl
 
+/-- the same for chains whose operands carry `-` (entries `NOT x` under OR are singleton clauses
+    below an explicit SHOULD, so nothing is unwrapped with a changed occur either) -/
+theorem C16_chain_markers_rewrite_safe [DecidableEq L] (m : Mode) (n0 : Bool) (a0 : Ast L)
+    (rest : List (BinOp × Bool × Ast L)) (h0 : safeWith m false a0 = true)
+    (hr : ∀ x ∈ rest, safeWith m false x.2.2 = true) :
+    safeWith m false (lenientFold ((chainFromN none n0 a0 rest).map rawOf)).1 = true := by
+  rw [lenientFold_map_rawOf _ (by rfl)]
+  exact chainN_safe m n0 a0 rest h0 hr
+
+example : safeWith .orDefault false
+    (lenientFold ((chainFromN none false (.leaf 1 : Ast Nat) [(.or, true, .leaf 2), (.and, false, .leaf 3)]).map rawOf)).1 = true := rfl
+
 /-- `a AND b  OR c`: the hypotheses hold (words resolve, `rewrite_ast` is safe on the leaves) -/
 example :
     let o := wordOpd ['a']
